@@ -7,7 +7,7 @@ Line-protocol encoding shared by the C07 and C08 drivers (see harness/c08/proto.
 * `ns`: `c` (jabber:client) or `s` (jabber:server); `localBare`: hex;
 * `jidmap`: `,`-joined `hexvalue=hexcanon` (or `hexvalue=X` when the value does not parse);
 * `toks`: token list (Prelude/Xml.lean);
-* `progs`: `/`-joined programs, each `ret,op,op,…` with `ret` ∈ ok|fail|eof|readerr and `op` = `r` or
+* `progs`: `/`-joined programs, each `ret,op,op,…` with `ret` ∈ ok|fail|eof|readerr|stanzaerr|streamerr|wrapeof|wrapueof|wrapstanza|wrapstream|joineof, an optional `c` right after it = the handler closes the output first and `op` = `r` or
   `w<toks>` (`w-` writes nothing);
 * invocations: `/`-joined `start,obs,obs…` with obs = `t<tok>` | `e` | `z`;
 * written: `/`-joined element summaries `loc,type,id,to,su,nstart` (fields hex);
@@ -25,10 +25,17 @@ def decRet (s : String) : Option Ret :=
   if s == "ok" then some .ok else if s == "fail" then some .fail else if s == "eof" then some .eof
   else if s == "readerr" then some .readErr
   else if s == "stanzaerr" then some .stanzaErr
-  else if s == "streamerr" then some .streamErr else none
+  else if s == "streamerr" then some .streamErr
+  else if s == "wrapeof" then some .wrapEof else if s == "wrapueof" then some .wrapUeof
+  else if s == "wrapstanza" then some .wrapStanza else if s == "wrapstream" then some .wrapStream
+  else if s == "joineof" then some .joinEof else none
 
 def decProg (s : String) : Option Prog :=
   match s.splitOn "," with
+  | r :: "c" :: ops => do
+    let r ← decRet r
+    let ops ← mapM? decOp ops
+    pure { ops := ops, ret := r, close := true }
   | r :: ops => do
     let r ← decRet r
     let ops ← mapM? decOp ops
@@ -96,6 +103,20 @@ def handleServeP (args : List String) : Option OutP :=
     let toks ← decToks toks
     let progs ← decProgs progs
     pure (serveP { ns := ns, localBare := lb, jidCanon := jidOracle jm } pd toks progs)
+  | _ => none
+
+/-- `servex <closed> <ns> <localBare> <jidmap> <toks> <progs>`: the output is already closed when
+Serve starts (`closed` = 1) or a program closes it (`ret,c,op…`) -/
+def handleServeX (args : List String) : Option Out :=
+  match args with
+  | [cl, ns, lb, jm, toks, progs] => do
+    let cl ← parseBool cl
+    let ns ← decNs ns
+    let lb ← unhexF (if lb == "-" then "" else lb)
+    let jm ← decJidMap jm
+    let toks ← decToks toks
+    let progs ← decProgs progs
+    pure (serveC { ns := ns, localBare := lb, jidCanon := jidOracle jm } cl toks progs)
   | _ => none
 
 def handleServe (args : List String) : Option Out :=
